@@ -337,7 +337,8 @@ def run_adaptive(scn, out):
         else:
             att += 1
             cur[0] = op[1] / 1e6
-            ctx = S.BackoffContext(attempt=att, classification=Classification(klass=ErrorClass.TRANSIENT), prev_sleep_s=None, remaining_s=None, cause="exception")
+            rem = [None, None, 0.001, 0.25, 1.0, 60.0][(att + len(scn["ops"])) % 6]
+            ctx = S.BackoffContext(attempt=att, classification=Classification(klass=ErrorClass.TRANSIENT), prev_sleep_s=None, remaining_s=rem, cause="exception")
             n0 = len(inner_vals)
             try:
                 x = ad(ctx)
